@@ -4,6 +4,7 @@ import ast
 from ..index import AnalysisError, norm, walk_no_nested
 from ..astutil import dotted, returns, const_value, single_return_expr
 from .. import cfg as cfgmod
+from ..dtable import subst as dtable_subst
 from .. import builtins as bi
 
 MOD = "problog.engine_builtin"
@@ -491,25 +492,44 @@ def _tier_scenarios(f, col, m):
     return paths
 
 
+def _cmp_helpers(repo, f):
+    """module-level helpers that struct_cmp hands both of its arguments to, in order (inlining bound 1): the comparator rules apply to them too"""
+    m = f.module
+    a, b = f.params[0], f.params[1]
+    out = []
+    for n in walk_no_nested(f.node):
+        if isinstance(n, ast.Call) and isinstance(n.func, ast.Name) and [norm(x) for x in n.args] == [a, b] and not n.keywords:
+            name = n.func.id
+            if name in ("compare", f.name) or name in THREEWAY:
+                continue
+            h = m.functions.get(name)
+            if h is not None and len(h.params) == 2 and h not in out:
+                out.append(h)
+    return out
+
+
 def rule_o6(repo, col):
     f = repo.func(MOD, "struct_cmp")
     m = f.module
     paths = _tier_scenarios(f, col, m)
-    # float before equal integer inside the number tier
-    g = cfgmod.build(f.node)
-    facts = cfgmod.available_facts(g)
+    helpers = _cmp_helpers(repo, f)
     a, b = f.params[0], f.params[1]
+    # float before equal integer inside the number tier
     seen_fi = 0
-    for node in g.stmt_nodes():
-        if node.kind == "stmt" and isinstance(node.ast, ast.Return):
-            st = facts.get(node.id) or frozenset()
-            fa = ("_is_float(%s)" % a, True) in st and ("_is_integer(%s)" % b, True) in st
-            fb = ("_is_float(%s)" % b, True) in st and ("_is_integer(%s)" % a, True) in st
-            if fa or fb:
-                seen_fi += 1
-                okc, v = const_value(node.ast.value)
-                col.decide("O6", m, node.ast, okc and ((fa and v < 0) or (fb and v > 0)), "float sorts before an equal integer",
-                           "when the values are equal the float must sort before the integer; returns %s with float=%s" % (norm(node.ast.value), a if fa else b))
+    for sf in [f] + helpers:
+        g = cfgmod.build(sf.node)
+        facts = cfgmod.available_facts(g)
+        sa, sb = sf.params[0], sf.params[1]
+        for node in g.stmt_nodes():
+            if node.kind == "stmt" and isinstance(node.ast, ast.Return):
+                st = facts.get(node.id) or frozenset()
+                fa = ("_is_float(%s)" % sa, True) in st and ("_is_integer(%s)" % sb, True) in st
+                fb = ("_is_float(%s)" % sb, True) in st and ("_is_integer(%s)" % sa, True) in st
+                if fa or fb:
+                    seen_fi += 1
+                    okc, v = const_value(node.ast.value)
+                    col.decide("O6", m, node.ast, okc and ((fa and v < 0) or (fb and v > 0)), "float sorts before an equal integer",
+                               "when the values are equal the float must sort before the integer; returns %s with float=%s" % (norm(node.ast.value), sa if fa else sb), function=sf.qualname)
     if seen_fi < 2:
         col.fail("O6", m, f.node, "the number tier no longer orders a float before an equal integer (both directions)",
                  construct="def struct_cmp: float/integer tie-break", function="struct_cmp")
@@ -521,6 +541,13 @@ def rule_o6(repo, col):
             for fn, args, node_ in p.calls:
                 if fn == "compare" and node_ not in [c_[1] for c_ in cmps]:
                     cmps.append((args, node_))
+                for h in helpers:
+                    if fn == h.name and args == [a, b]:
+                        # the helper's own comparisons, renamed to struct_cmp's argument names
+                        for c_ in walk_no_nested(h.node):
+                            if isinstance(c_, ast.Call) and dotted(c_.func) == "compare" and c_ not in [x[1] for x in cmps]:
+                                ren = {h.params[0]: a, h.params[1]: b}
+                                cmps.append(([dtable_subst(x, ren) for x in c_.args], c_))
     if not cmps:
         raise AnalysisError("struct_cmp: number tier comparison not found")
     okn = all(args == ["float(%s)" % a, "float(%s)" % b] for args, _ in cmps)
@@ -561,7 +588,7 @@ def run(repo, col):
     col.rule("O5", "sort/2 uses StructSort on a duplicate-free collection")
     col.rule("O6", "tier table of struct_cmp")
     rule_o0(repo, col)
-    n = rule_o1(repo, col, ["struct_cmp", "_builtin_compare"])
+    n = rule_o1(repo, col, ["struct_cmp", "_builtin_compare"] + [h.name for h in _cmp_helpers(repo, repo.func(MOD, "struct_cmp"))])
     col.floor("O1.threeway_assignments", n, 4)
     rule_o2(repo, col)
     rule_o3(repo, col)
